@@ -95,7 +95,7 @@ func corrC18(c *corrCtx) {
 	}
 	for rep := 0; rep < reps; rep++ {
 		for _, withICC := range []bool{false, true} {
-			psz := []int{70000, 300, 140000, 4096, 1, 9000, 65537, 4000, 700000, 65536}[rep%10]
+			psz := []int{70001, 557, 140000, 4096, 1, 9000, 65537, 4000, 700000, 65536}[rep%10]
 			if rep >= 10 {
 				psz = r.pick(1, 300, 4000, 4096, 9000, 70000, 100000)
 			}
